@@ -27,6 +27,12 @@ def check(ctx, rep):
     # "packed lists keep their length and order": a list is never turned away for its length (only for having no elements)
     from .common import KeepOnly
     K.rule_nonempty(fm, KeepOnly(rep, ('rejects-only-empty-lists',), 'R7'), 'R7')
+    # the standalone constructors (Gauge::new_f64 ..) are another way a number reaches the wire: the value given is the value
+    # formatted (no arithmetic on the way: `value + 0.0` turns -0.0 into 0)
+    class _Ctors(KeepOnly):
+        def _keep(self, instance):
+            return str(instance).startswith('ctor/')
+    F.rule_constructors(fm, _Ctors(rep, (), 'R8c'), 'R8c')
     # the statsd_* macros are one more way a value reaches the client: handed over as supplied, no cast in between
     from . import c17
     c17.rule_macro_values(ctx, rep, 'R6m')
